@@ -26,7 +26,7 @@ META = {
     "block order, total charge, symmetry object with equal labels, a pre-fused index with different sub-structure but equal table, a twice-fused leg differing only in its innermost legs, the mere name of a charge over the box [-2,2], dtype); events = fuse x3 groupings, fused tensordot, reshape, "
     "fuse + unfuse down to the innermost legs, svd_truncated x2 limits on every member; breadth-first over event histories from the cold state, deduplicated by system state (ordered fuse-cache keys, argument sets seen by every "
     "lru_cache, hash-memo flags of the shared index objects, default mode); settings maxsize in {0,1,2,8192} x maxsectors in {1,512} and the environment-variable route; (b) every initial mode x nesting <=2 x "
-    "outcome; (c) 2 threads on shared operands, scheduling point = every line of library code (every opcode inside the cache / hash-memo functions), preemption bound 0 and 1 complete; bound 2 over the critical functions in thorough. "
+    "outcome; (c) 2 threads on shared operands, scheduling point = every line of library code (every opcode inside the cache / hash-memo functions), preemption bound 0 and 1 complete; bound 2 over the critical functions and a three-thread scenario on an evicting cache (bound 1, line granularity) in thorough. "
     "non-trivial = history whose last event finds a warm / evicting cache, or schedule with a preemption inside library code",
     "bounds": {"quick": "histories depth 2 all settings + depth 3 for maxsize 1 and 2; preemption bound 1", "thorough": "depth 3 all settings; bound 2 on critical functions"},
     "assumptions": [
@@ -384,6 +384,13 @@ def scenario(name):
             fam = build()
             x, y = fam["base"], fam["dual-flipped"]
             return [lambda: (x.fuse((0, 1), (2,)), x.fuse((0, 1), (2,))), lambda: (y.fuse((0, 1), (2,)), y.fuse((0, 1), (2,)))], [x, y]
+    elif name == "fuse||fuse||fuse evicting (3 threads)":
+        def make(maxsize=1):
+            fresh(maxsize)
+            fam = build()
+            x, y, z = fam["base"], fam["dual-flipped"], fam["size"]
+            return [lambda: (x.fuse((0, 1), (2,)), x.fuse((0, 1), (2,))), lambda: (y.fuse((0, 1), (2,)), y.fuse((0, 1), (2,))),
+                    lambda: (z.fuse((0, 1), (2,)), z.fuse((0, 1), (2,)))], [x, y, z]
     elif name == "tensordot||tensordot fused":
         def make(maxsize=8192):
             fresh(maxsize)
@@ -560,6 +567,9 @@ def groups(ctx):
         for name in SCENARIOS[:3]:
             for k in range(16):
                 out.append(("sched2", name, 2, k, 16))
+        # three threads on an evicting cache, preemption bound 1 (execution cap per partition reported)
+        for k in range(16):
+            out.append(("sched3", "fuse||fuse||fuse evicting (3 threads)", 1, k, 16))
     return out
 
 
@@ -600,9 +610,9 @@ def run_group(ctx, group):
         if out is not None:
             st.nontrivial += out["executions"]
             st.states += out["executions"]
-            if kind == "sched2" and out["executions"] >= 4000:
+            if kind in ("sched2", "sched3") and out["executions"] >= 4000:
                 st.counters["capped"] += 1
-                st.notes.append("bound 2: execution cap 4000 per partition reached")
+                st.notes.append(f"{kind}: execution cap 4000 per partition reached")
         for sig, det in fails:
             st.violation(sig, {"kind": "sched", "name": name, "bound": bound}, det)
         if k == 0 and out is not None:
